@@ -317,6 +317,10 @@ StackAt(layers, InFn(_, _), p) == Nest(Strip(Covering(layers, InFn, p)), 0)
 
 SrcIn(l, p) == InPlaced(l.shape, p) /\ InClips(l.clips, p)
 SrcStack(layers, p) == StackAt(layers, SrcIn, p)
+(* which layers cover p: a point is outside the epsilon band of every involved edge when its neighbours *)
+(* are covered by exactly the same layers (equal STACKS are not enough: where the edge of one black     *)
+(* layer meets the edge of another the stacks agree on both sides, yet the point sits on two edges)      *)
+SrcCover(layers, p) == {k \in 1..Len(layers) : SrcIn(layers[k], p)}
 
 (* output side: layer == [polys |-> Seq(point list in 1/64 units), rule, paint, e, grp]  *)
 (* bb = <<xmin, ymin, xmax, ymax>> of the layer and pb[k] of its k-th contour (pure accelerators: *)
@@ -331,6 +335,7 @@ OutIn(l, p) == /\ l.bb[1] <= 8 * p[1] /\ 8 * p[1] <= l.bb[3]
                /\ l.bb[2] <= 8 * p[2] /\ 8 * p[2] <= l.bb[4]
                /\ ByRule(WindAllBB(l.polys, l.pb, <<8 * p[1], 8 * p[2], 1>>, 1, 0), l.rule)
 OutStack(layers, p) == StackAt(layers, OutIn, p)
+OutCover(layers, p) == {k \in 1..Len(layers) : OutIn(layers[k], p)}
 
 Nbrs(p) == { <<p[1] + dx, p[2] + dy>> : dx \in {-1, 0, 1}, dy \in {-1, 0, 1} }
 (* all grid points within r/8 units (Chebyshev) of p: the epsilon band scales with the viewBox *)
